@@ -987,6 +987,18 @@ func gVals(in Input, op Op, order []int) string {
 func term(id uint64, in Input, obs Obs) string {
 	ops := make([]string, 0, len(in.Ops))
 	outs := make([]string, 0, len(in.Ops))
+	timing := make([]string, 0, len(in.Ops))
+	for _, op := range in.Ops {
+		rl := make([]string, 0, len(op.RelayLat))
+		for _, l := range op.RelayLat {
+			rl = append(rl, Pair(N(l.Addr), N(l.Ms)))
+		}
+		nl := make([]string, 0, len(op.NodeLat))
+		for _, ms := range op.NodeLat {
+			nl = append(nl, N(ms))
+		}
+		timing = append(timing, App("T", List(rl), List(nl)))
+	}
 	for i, op := range in.Ops {
 		var oo OpObs
 		if i < len(obs.Ops) {
@@ -1078,7 +1090,7 @@ func term(id uint64, in Input, obs Obs) string {
 	if obs.Problem != "" {
 		outs = nil // the harness itself saw something impossible: make the case fail loudly
 	}
-	return Record("c_id", N(id), "c_ops", List(ops), "c_outs", List(outs))
+	return Record("c_id", N(id), "c_ops", List(ops), "c_timing", List(timing), "c_outs", List(outs))
 }
 
 func gRelays(rs []RelayObs) string {
@@ -1148,6 +1160,65 @@ func inputTags(in Input) []string {
 		for _, k := range op.Relays {
 			if k.Kind != "ok" {
 				tags = addTag(tags, "relay-"+k.Kind)
+			}
+		}
+		// timing: who is still in flight when a failing peer answers
+		lat := func(k int) uint64 {
+			if k < len(op.NodeLat) {
+				return op.NodeLat[k]
+			}
+			return 0
+		}
+		for _, l := range op.RelayLat {
+			if l.Ms > 0 {
+				tags = addTag(tags, "timed")
+			}
+			if l.Ms >= 1000 {
+				tags = addTag(tags, "slow-peer")
+			}
+		}
+		for k := range op.NodeLat {
+			if lat(k) > 0 {
+				tags = addTag(tags, "timed")
+			}
+			if lat(k) >= 1000 {
+				tags = addTag(tags, "slow-peer")
+			}
+		}
+		for k, n := range op.Nodes {
+			if n != "err" {
+				continue
+			}
+			for j, m := range op.Nodes {
+				if m == "ok" && lat(k) < lat(j) {
+					if op.Kind == "prepare" {
+						tags = addTag(tags, "prepnode-fails-while-another-in-flight")
+					} else {
+						tags = addTag(tags, "node-fails-while-another-in-flight")
+					}
+				}
+			}
+		}
+		for _, k := range op.Relays {
+			if k.Kind != "err" {
+				continue
+			}
+			var mine uint64
+			for _, l := range op.RelayLat {
+				if l.Addr == k.Addr {
+					mine = l.Ms
+				}
+			}
+			for _, l := range op.RelayLat {
+				other := "ok"
+				for _, k2 := range op.Relays {
+					if k2.Addr == l.Addr {
+						other = k2.Kind
+					}
+				}
+				if other == "ok" && mine < l.Ms {
+					tags = addTag(tags, "relay-fails-while-another-in-flight")
+				}
 			}
 		}
 		if op.RealCfg != "" {
@@ -1245,7 +1316,7 @@ func TestC11(t *testing.T) {
 	zerologger.Logger = zerolog.New(io.Discard)
 	deadlock.Opts.Disable = true
 	col := NewCollector("C11", "Check.C11",
-		"histories of 2-9 operations (registration rounds by the job or the API, REST forwarding, proposal preparations) over 1-6 validators, 0-3 relays with per-relay settings, 0-3 secondary and 1-3 preparation beacon nodes, with settings changing between rounds (A->B->A included) and failing subsets of relays / nodes / signing requests / validators, run on the real block relay and proposal preparer services in a synctest bubble. Non-trivial = at least two rounds did their work, a signature was made and a cached registration was reused; distinct by input text")
+		"histories of 2-9 operations (registration rounds by the job or the API, REST forwarding, proposal preparations) over 1-6 validators, 0-3 relays with per-relay settings, 0-3 secondary and 1-3 preparation beacon nodes, with settings changing between rounds (A->B->A included) and failing subsets of relays / nodes / signing requests / validators; in half of the histories relays and beacon nodes take time (0-250 ms, sometimes seconds; failing ones mostly fast) and abandon a request whose context is cancelled first, as real clients do, and a request counts only when it arrives; run on the real block relay and proposal preparer services in a synctest bubble. Non-trivial = at least two rounds did their work, a signature was made and a cached registration was reused; distinct by input text")
 	col.ShardSize = 100 // the terms are long: about 60 ms per case in coqc
 	n := EnvInt("VERIF_N", 500)
 	thorough := os.Getenv("VERIF_TIER") == "thorough"
@@ -1294,6 +1365,16 @@ func TestC11(t *testing.T) {
 						col.Count("registration:forwarded")
 					}
 				}
+			}
+		}
+		for _, oo := range obs.Ops {
+			for range oo.Aborted {
+				col.Count("request:abandoned")
+			}
+		}
+		for _, tg := range tags {
+			if strings.Contains(tg, "in-flight") || tg == "timed" || tg == "slow-peer" {
+				col.Count("family:" + tg)
 			}
 		}
 		if obs.Panic != "" {
